@@ -711,6 +711,18 @@ class C08(core.Check):
         layers = [self.gen_layer(rng, 0, pool, rng.choice(['dict', 'dict', 'ini']))]
         if rng.random() < .35:
             layers.append(self.gen_layer(rng, 1, pool, rng.choice(['dict', 'ini'])))
+        if layers[0]['how'] == 'dict' and len(layers[0]['sections']) >= 2 and rng.random() < .3:
+            # two sections given as one shared dict object, then a second merge into one of them
+            s1, s2 = rng.sample(sorted(layers[0]['sections']), 2)
+            common = self.gen_conf(rng, 'X0:shared', p=.6, tools=rng.random() < .5) or {'pk.b': 'X0:shared'}
+            layers[0]['sections'][s1] = dict(common)      # equal content => ONE dict object in app_for
+            layers[0]['sections'][s2] = dict(common)
+            layers[0]['share'] = True
+            extra = self.gen_conf(rng, 'S1:%s' % s1, p=.9, tools=rng.random() < .5) or {'pk.a': 'S1x'}
+            if len(layers) == 1:
+                layers.append({'how': rng.choice(['dict', 'ini']), 'sections': {}})
+            layers[1]['sections'].setdefault(s1, {}).update(extra)
+            self.count('shared-section-dict')
         gconf = self.gen_conf(rng, 'G', p=.4) or {}
         gconf = {k: v for k, v in gconf.items() if k not in ('tools.c08pa',)}
         out = []
@@ -900,6 +912,12 @@ class C08(core.Check):
                 finally:
                     cherrypy.engine.autoreload.files.discard(p)
                     os.unlink(p)
+            elif layer.get('share'):
+                # the caller reuses ONE dict object for sections with equal content (common = {...};
+                # {'/a': common, '/b': common}): merge() must not let a later merge write through it
+                objs = {}
+                app.merge({k: objs.setdefault(repr(sorted(v.items(), key=repr)), dict(v))
+                           for k, v in layer['sections'].items()})
             else:
                 app.merge({k: dict(v) for k, v in layer['sections'].items()})
         W.app = (c['layers'], app, c['mode'])
